@@ -62,6 +62,15 @@ THEOREMS = [
     "Lena.C05.constructors_only_lenaTypeError",
     "Lena.C05.spec_preKind",
     "Lena.C05.spec_drivers_agree",
+    "Lena.C05.inScopeB_iff",
+    "Lena.C05.preSafe_iff",
+    "Lena.C05.seq_eq_fill_spec",
+    "Lena.C05.delivered_same",
+    "Lena.C05.count_dual",
+    "Lena.C05.fillComputeSeq_rejects",
+    "Lena.C05.neg_slice_fill_into",
+    "Lena.C05.neg_slice_fillRun",
+    "Lena.C05.split_fill_eq_run",
 ]
 TRUSTED = [
     "Lean 4.33.0 kernel; axioms limited to propext, Classical.choice, Quot.sound (audited by #print axioms on every run)",
@@ -353,7 +362,15 @@ def build(spec):
     if k == "count":
         return lena.flow.Count(spec["name"])
     if k == "runif":
-        return lena.flow.RunIf(make_pred(spec["p"]), *[build(s) for s in spec["inner"]])
+        inner = [build(s) for s in spec["inner"]]
+        if spec.get("bad"):
+            return lena.flow.RunIf(5, *inner)                 # a select that cannot become a Selector
+        sel = make_pred(spec["p"])
+        if spec.get("sel"):
+            sel = lena.flow.Selector(sel)                      # an explicit Selector is used as it is
+        if spec.get("seqarg"):
+            return lena.flow.RunIf(sel, lena.core.Sequence(*inner))   # a single Sequence argument is used as it is
+        return lena.flow.RunIf(sel, *inner)
     if k == "reverse":
         return lena.flow.Reverse()
     if k == "end":
@@ -450,6 +467,8 @@ def ref_gen(spec, it):
         for v in itertools.islice(it, a, b, s):
             yield v
     elif k == "runif":
+        if spec.get("bad"):
+            raise _RefSkip()
         for v in it:
             if _pred_value(spec["p"], v):
                 for r in ref_chain_gen(spec["inner"], iter([v])):
@@ -565,12 +584,91 @@ def drive_fillseq(args, flow):
     return observe(go)
 
 
-def drive_split(branches, bufsize, flow):
+def drive_split(branches, bufsize, flow, islist=True, form="tuple"):
+    """form: how a branch is handed to Split — the tuple of its elements; "prebuilt": a FillComputeSeq made by the caller;
+    "bare": a branch of one element is given as the element itself (all are documented as equivalent)"""
     import lena.core
-    sp, err = _construct(lambda: lena.core.Split([tuple(build(s) for s in b) for b in branches], bufsize=bufsize))
+    conv = list if islist else tuple
+
+    def branch(b):
+        objs = tuple(build(s) for s in b)
+        if form == "prebuilt":
+            return lena.core.FillComputeSeq(*objs)
+        if form == "bare" and len(objs) == 1:
+            return objs[0]
+        return objs
+    sp, err = _construct(lambda: lena.core.Split(conv(branch(b) for b in branches), bufsize=bufsize))
     if err:
         return err
     return observe(lambda: sp.run(iter(dec(flow))))
+
+
+def failing_iter(flow, term):
+    """an iterator over fresh copies of the values, which then raises `term` (if any)"""
+    vals = dec(flow)
+    exc = {"Other:ValueError": ValueError, "Other:TypeError": TypeError, "Other:IndexError": IndexError}
+    for v in vals:
+        yield v
+    if term is not None:
+        raise exc[term]("input flow failed")
+
+
+def drive_stage(spec, flow, term):
+    """one element, its two faces: FillSeq(el, StoreFilled()) filled value by value; Sequence(el).run(flow)"""
+    import lena.core
+    import lena.flow
+    store = lena.flow.StoreFilled()
+    fs, err = _construct(lambda: lena.core.FillSeq(build(spec), store))
+    if err:
+        return err
+    seq, err = _construct(lambda: lena.core.Sequence(build(spec)))
+    if err:
+        return err
+    end = "ok"
+    try:
+        for v in failing_iter(flow, term):
+            fs.fill(v)
+    except lena.core.LenaStopFill:
+        end = "stop"
+    except Exception as e:
+        end = exc_name(e)
+    return {"fill": {"got": [enc(v) for v in store.group], "end": end},
+            "run": observe(lambda: seq.run(failing_iter(flow, term)))}
+
+
+def drive_splitfc(branches, flow):
+    """a Split of fill_compute branches used through its own fill/compute (as a FillCompute element)"""
+    import lena.core
+    sp, err = _construct(lambda: lena.core.Split([tuple(build(s) for s in b) for b in branches]))
+    if err:
+        return err
+    if not (callable(getattr(sp, "fill", None)) and callable(getattr(sp, "compute", None))):
+        return {"skip": "no common type fill_compute"}
+
+    def go():
+        _fill_loop(sp, flow)
+        return sp.compute()
+    return observe(go)
+
+
+def fills_normally(args, flow):
+    """the FillComputeSeq of one branch, filled alone with the whole flow: True iff no LenaStopFill and no exception"""
+    import lena.core
+    seq, err = _construct(lambda: lena.core.FillComputeSeq(*[build(s) for s in args]))
+    if err:
+        return None
+    try:
+        for v in dec(flow):
+            seq.fill(v)
+    except Exception:
+        return False
+    return True
+
+
+def drive_fillseq_init(args):
+    import lena.core
+    _, err = _construct(lambda: lena.core.FillSeq(*[build(s) for s in args]))
+    return err or {"ok": True}
 
 
 def split_point(args):
@@ -794,9 +892,22 @@ def run_impl(case):
         sp = split_point(args)
         res["safe"] = ref_safe(sp[0], flow) if sp else None
         return res
+    if op == "stage":
+        return drive_stage(case["el"], case["flow"], case.get("term"))
+    if op == "fillseq_init":
+        objs, err = _construct(lambda: [build(s) for s in case["args"]])
+        facts = {"ctor": err["e"]} if err else {
+            "ctor": None, "n": len(objs),
+            "data": [{"fill": attr_state(o, "fill") == 2, "pre_ok": pre_convertible(o)} for o in objs
+                     if not hasattr(o, "_has_no_data")]}
+        return {"res": drive_fillseq_init(case["args"]), "facts": facts}
+    if op == "splitfc":
+        bs, flow = case["branches"], case["flow"]
+        return {"fc": drive_splitfc(bs, flow), "run": [drive_split(bs, b, flow) for b in (1, 3, None)],
+                "normal": [fills_normally(b, flow) for b in bs], "facts": [chain_facts(b) for b in bs]}
     if op == "split":
         bs, flow = case["branches"], case["flow"]
-        return {"split": drive_split(bs, case["bufsize"], flow),
+        return {"split": drive_split(bs, case["bufsize"], flow, case.get("islist", True), case.get("form", "tuple")),
                 "seq": [drive_seq(b, flow) for b in bs],
                 "fill": [drive_fill(b, flow) for b in bs],
                 "safe": [(lambda sp: ref_safe(sp[0], flow) if sp else None)(split_point(b)) for b in bs],
@@ -814,7 +925,14 @@ def model_requests(case):
     if op == "chain":
         return [{"op": "chain", "args": case["args"], "flow": case["flow"], "bufsizes": case["bufsizes"]}]
     if op == "split":
-        return [{"op": "split", "branches": case["branches"], "bufsize": case["bufsize"], "flow": case["flow"]}]
+        return [{"op": "split", "branches": case["branches"], "bufsize": case["bufsize"], "flow": case["flow"],
+                 "islist": case.get("islist", True)}]
+    if op == "splitfc":
+        return [{"op": "splitfc", "branches": case["branches"], "flow": case["flow"]}]
+    if op == "fillseq_init":
+        return [{"op": "fillseq_init", "args": case["args"]}]
+    if op == "stage":
+        return [{"op": "stage", "el": case["el"], "flow": case["flow"], "term": case.get("term")}]
     if op == "adapter":
         # the capability flags are read from the real object: two requests are impossible here (model_requests has no
         # access to the impl result), so the flags are recomputed
@@ -848,11 +966,44 @@ def compare(case, res, replies):
         if res["fillseq"] is not None and "phase" not in res["fill"] and _canon_out(m["fill"]) != res["fillseq"]:
             return f"fillseq: impl {res['fillseq']} vs model (fillRun) {_canon_out(m['fill'])}"
         for b, a, mm in zip(case["bufsizes"], res["split"], m["split"]):
+            if not res["facts"].get("ctor") and not res["facts"].get("has_fc"):
+                break           # no fill/compute element: Split makes a branch of type "sequence" (C03's model)
             if _canon_out(mm) != a:
                 return f"split bufsize={b}: impl {a} vs model {_canon_out(mm)}"
         if res["safe"] is not None and m["safe"] is not None and res["safe"] != m["safe"]:
             return f"PreSafe: Python reference {res['safe']} vs model preSafeB {m['safe']}"
+        if m.get("seqchain") is not None and _canon_out(m["seqchain"]) != res["seq"]:
+            return f"seqRun of the FillComputeSeq's chain {_canon_out(m['seqchain'])} vs the real Sequence {res['seq']}"
+        if m.get("dual") is not None:
+            d = m["dual"]
+            if model_value(d["seq"]) != res["seq"].get("r") or res["seq"].get("t") is not None:
+                return f"count_dual: countRunSpec {model_value(d['seq'])} vs the real Sequence {res['seq']}"
+            if model_value(d["fill"]) != res["fill"].get("r") or res["fill"].get("t") is not None:
+                return f"count_dual: fill side {model_value(d['fill'])} vs the real FillComputeSeq {res['fill']}"
+        sp = split_point(case["args"])
+        if m.get("inscope") is not None and sp is not None:
+            ref = [pre_in_scope([x]) for x in sp[0]]
+            if m["inscope"] != ref:
+                return f"Spec.inScopeB {m['inscope']} vs Python pre_in_scope {ref}"
         return None
+    if op == "stage":
+        if "e" in m or "e" in res:
+            return None if m == res else f"impl {res} vs model {m}"
+        mf, rf = m["fill"], res["fill"]
+        if mf["end"] != rf["end"] or ("got" in mf and model_value(mf["got"]) != rf["got"]):
+            return f"fill side: impl {rf} vs model {mf}"
+        if _canon_out(m["run"]) != res["run"]:
+            return f"run side: impl {res['run']} vs model {_canon_out(m['run'])}"
+        return None
+    if op == "fillseq_init":
+        return None if m == res["res"] else f"impl {res['res']} vs model {m}"
+    if op == "splitfc":
+        if "skip" in res["fc"]:
+            return None
+        if "e" in m or "e" in res["fc"]:
+            return None if m == res["fc"] else f"impl {res['fc']} vs model {m}"
+        mv = {"r": [model_value(p[1]) for p in m["r"]], "t": m["t"]}
+        return None if mv == res["fc"] else f"impl {res['fc']} vs model {mv}"
     if op == "split":
         if "e" in m or "e" in res["split"]:
             return None if m == res["split"] else f"impl {res['split']} vs model {m}"
@@ -867,6 +1018,11 @@ def compare(case, res, replies):
                     return f"branch {i}: model projection {proj} vs FillComputeSeq alone {f['r']}"
         return None
     if op == "adapter":
+        ref = adapter_reference(case, res["flags"])
+        if m.get("spec_accepts") != (ref != "LenaTypeError"):
+            return f"specification side: accepts={m.get('spec_accepts')} vs the documented rule {ref}"
+        if ref != "LenaTypeError" and m.get("spec_binding") != ref:
+            return f"specification side: binding {m.get('spec_binding')} vs the documented rule {ref}"
         if res["e"] is not None or "e" in m:
             return None if res["e"] == m.get("e") else f"impl {res['e']} vs model {m}"
         mode = m["mode"]
@@ -904,6 +1060,30 @@ def _chain_agreement(args, flow, seq, fills, safe, what):
     else:
         if seq.get("t") is None and f0.get("t") is None and seq != f0:
             return f"Sequence.run gives {seq} but {name0} gives {f0} (both completed); {what}"
+    return None
+
+
+def _dual_count(args, res, what):
+    """a bare Count at the accumulator position (dual interface): both drivers see the same delivered values — the
+    Sequence yields them (the last one with the count in its context), the FillComputeSeq yields (count, context)"""
+    sp = split_point(args)
+    if not sp or sp[1]["k"] != "count" or sp[2] or not pre_in_scope(sp[0]) or res["safe"] is not True:
+        return None
+    seq, fill = res["seq"], res["fill"]
+    if "e" in seq or "e" in fill:
+        return None
+    if seq["t"] is not None or fill["t"] is not None:
+        return f"no pre-processing element raises, but Sequence gives {seq} and FillComputeSeq {fill}; {what}"
+    f = fill["r"]
+    if len(f) != 1 or not isinstance(f[0], dict) or "t" not in f[0]:
+        return f"Count.compute must yield one (count, context) pair, got {f}; {what}"
+    n, ctx = f[0]["t"][0], f[0]["t"][1]
+    if len(seq["r"]) != n:
+        return f"Count filled {n} values but Count.run passed {len(seq['r'])} values; {what}"
+    if n > 0:
+        last = seq["r"][-1]
+        if not (isinstance(last, dict) and "t" in last and last["t"][1] == ctx):
+            return f"Count.run's last value {last} does not carry the context {ctx} of Count.compute; {what}"
     return None
 
 
@@ -947,13 +1127,68 @@ def oracle(case, res):
                 return f"{nm}: LenaTypeError raised while running, not at construction: {o}; {what}"
         if not facts["seq_ok"]:
             return None
-        return _chain_agreement(args, flow, res["seq"], fill_side, res["safe"], what)
+        return (_chain_agreement(args, flow, res["seq"], fill_side, res["safe"], what)
+                or _dual_count(args, res, what))
+    if op == "stage":
+        spec = case["el"]
+        if "e" in res or not pre_in_scope([spec]) or spec.get("bad"):
+            return None
+        f, r = res["fill"], res["run"]
+        what = f"element {spec} flow {case['flow']} term {case.get('term')}"
+        if spec["k"] == "slice":
+            if case.get("term"):
+                return None         # islice may hide the end of the input: the lemma is for flows that end normally
+            if f["end"] not in ("ok", "stop") or r["t"] is not None:
+                return f"a Slice raised: fill side {f}, run side {r}; {what}"
+        else:
+            if (f["end"] == "ok") != (r["t"] is None) or (r["t"] is not None and f["end"] != r["t"]):
+                return f"filling value by value ended with {f['end']} but run ended with {r['t']}; {what}"
+        if f["got"] != r["r"]:
+            return (f"fill_into value by value filled {f['got']} but run yields {r['r']} "
+                    f"(driver-consistency of the element); {what}")
+        return None
+    if op == "fillseq_init":
+        facts, r = res["facts"], res["res"]
+        what = f"FillSeq(*{case['args']})"
+        if facts["ctor"]:
+            return None if r.get("phase") == "init" else f"an element constructor raises but got {r}; {what}"
+        data = facts["data"]
+        if facts["n"] > 0 and not data:
+            return None             # only elements without data: IndexError (recorded observation, undocumented case)
+        bad = facts["n"] == 0 or not data[-1]["fill"] or not all(d["pre_ok"] for d in data[:-1])
+        if bad and r != {"e": "LenaTypeError", "phase": "init"}:
+            return f"must raise LenaTypeError at construction, got {r}; {what}"
+        if not bad and r != {"ok": True}:
+            return f"every argument is convertible and the last one has fill, but got {r}; {what}"
+        return None
+    if op == "splitfc":
+        fc = res["fc"]
+        facts = res["facts"]
+        what = f"branches {case['branches']} flow {case['flow']}"
+        if "skip" in fc or any(f["ctor"] for f in facts) or not all(f.get("has_fc") and f.get("fill_ok") for f in facts):
+            return None
+        if "e" in fc:
+            return f"every branch is a convertible FillCompute chain but Split raised {fc}; {what}"
+        if all(n is True for n in res["normal"]):
+            for b, r in zip((1, 3, None), res["run"]):
+                if r != fc:
+                    return (f"no branch stops or raises, but Split filled value by value and computed gives {fc} "
+                            f"while Split(bufsize={b}).run gives {r}; {what}")
+        return None
     if op == "split":
         what = f"branches {case['branches']} bufsize {case['bufsize']} flow {case['flow']}"
         sp = res["split"]
         facts = res["facts"]
         if any(f["ctor"] for f in facts):
             return None if sp.get("phase") == "init" else f"an element constructor raises but Split gave {sp}; {what}"
+        if not case.get("islist", True):
+            if sp != {"e": "LenaTypeError", "phase": "init"}:
+                return f"seqs is not a list: LenaTypeError expected at construction, got {sp}; {what}"
+            return None
+        if case["bufsize"] is not None and case["bufsize"] < 1:
+            if all(f.get("has_fc") and f.get("fill_ok") for f in facts) and sp != {"e": "LenaValueError", "phase": "init"}:
+                return f"bufsize {case['bufsize']} is not a natural number: LenaValueError expected, got {sp}; {what}"
+            return None
         if not all(f.get("has_fc") and f.get("fill_ok") for f in facts):
             return None                # branch types other than fill_compute: C03
         if "e" in sp:
@@ -1096,7 +1331,18 @@ def gen_pre_el(rng, in_scope=True):
         return {"k": "filter", "p": rng.choice(PREDS)}
     if r < 0.82:
         return {"k": "slice", "args": rng.choice(NONNEG_SLICES)}
-    return {"k": "runif", "p": rng.choice(PREDS), "inner": gen_inner(rng, 1)}
+    return gen_runif(rng, in_scope)
+
+
+def gen_runif(rng, in_scope=True):
+    e = {"k": "runif", "p": rng.choice(PREDS), "inner": gen_inner(rng, 1)}
+    if rng.random() < 0.2:
+        e["sel"] = True
+    if rng.random() < 0.15:
+        e["seqarg"] = True
+    if not in_scope and rng.random() < 0.1:
+        e["bad"] = True
+    return e
 
 
 def gen_syn(rng):
@@ -1126,7 +1372,7 @@ def gen_post_el(rng, st, in_scope=True):
     if r < 0.77:
         return {"k": "end"}
     if r < 0.87:
-        return {"k": "runif", "p": rng.choice(PREDS), "inner": gen_inner(rng, 1)}
+        return gen_runif(rng, in_scope)
     # a further accumulator, used as a simple Run element
     a = rng.choice(["store", "store", "count", "sum"])
     if a == "sum" and st["floaty"]:
@@ -1144,6 +1390,8 @@ def gen_chain(rng, in_scope=True, maxpre=3, maxpost=3):
     if acc["a"] == "count":
         acc["name"] = rng.choice(COUNT_NAMES)
     st = {"floaty": acc["a"] == "mean"}
+    if rng.random() < 0.06:
+        acc = {"k": "count", "name": rng.choice(COUNT_NAMES)}      # a bare Count: run and fill/compute (dual interface)
     post = [gen_post_el(rng, st, in_scope) for _ in range(rng.choice([0, 0, 1, 1, 2, 3][:maxpost + 3]))]
     return pre + [acc] + post
 
@@ -1223,12 +1471,28 @@ def gen_split_case(rng, in_scope=True):
     return {"op": "split", "branches": branches, "bufsize": rng.choice(bufsizes_for(len(flow))), "flow": flow}
 
 
+STAGE_FLOWS = [FLOW_A, FLOW_B, [], [2, "s", 4], [13, 13], [{"t": [6, {"d": {"a": 1}}]}, 6, 8, 10, 12, 14, 16]]
+FILLSEQ_ELS = [{"k": "call", "f": "inc"}, {"k": "filter", "p": "even"}, {"k": "slice", "args": [2]},
+               {"k": "runif", "p": "even", "inner": [{"k": "call", "f": "inc"}]}, {"k": "reverse"}, {"k": "junk", "v": "int"},
+               {"k": "setctx"}, {"k": "acc", "a": "sum"}, {"k": "count", "name": "n"},
+               {"k": "syn", "attrs": {"fill": 2}, "call": False}, {"k": "syn", "attrs": {"fill": 1}, "call": True},
+               {"k": "syn", "attrs": {"fill_into": 2}, "call": False},
+               {"k": "syn", "attrs": {"run": 2, "_can_break_flow": 1}, "call": False}, {"k": "slice", "args": [0, 5, 0]}]
+
+
+def runif_variants(spec):
+    yield spec
+    yield dict(spec, sel=True)
+    yield dict(spec, seqarg=True)
+    yield dict(spec, sel=True, seqarg=True)
+
+
 def gen_cases(ctx):
+    """lazy: the cases are produced one by one (common.run_check may take a prefix of the thorough generator)"""
     rng = ctx.rng
     thorough = ctx.tier == "thorough"
-    cases = []
     # ---- exhaustive scopes -------------------------------------------------------------------------
-    cases.extend(adapter_cases())
+    yield from adapter_cases()
     reps = PRE_REPS if thorough else QUICK_REPS
     pres = [[]] + [[a] for a in PRE_REPS] + [[a, b] for a in reps for b in reps]
     flows = [FLOW_A, FLOW_B, FLOW_C, []] if thorough else [FLOW_A, FLOW_B]
@@ -1236,12 +1500,24 @@ def gen_cases(ctx):
     for pre in pres:
         for acc in accs:
             for fl in flows:
-                cases.append({"op": "chain", "args": pre + [acc], "flow": fl, "bufsizes": bufsizes_for(len(fl))})
+                yield {"op": "chain", "args": pre + [acc], "flow": fl, "bufsizes": bufsizes_for(len(fl))}
     for acc in ACCS:
         for fl in ([], [5], FLOW_A, FLOW_B):
-            cases.append({"op": "chain", "args": [acc], "flow": fl, "bufsizes": bufsizes_for(len(fl))})
-            cases.append({"op": "chain", "args": [{"k": "filter", "p": "none"}, acc, {"k": "call", "f": "wrap"}],
-                          "flow": fl, "bufsizes": bufsizes_for(len(fl))})
+            yield {"op": "chain", "args": [acc], "flow": fl, "bufsizes": bufsizes_for(len(fl))}
+            yield {"op": "chain", "args": [{"k": "filter", "p": "none"}, acc, {"k": "call", "f": "wrap"}],
+                   "flow": fl, "bufsizes": bufsizes_for(len(fl))}
+    # no fill/compute element at all; RunIf constructor variants; a bare Count as the accumulator (dual interface)
+    for args in ([], [{"k": "call", "f": "inc"}], [{"k": "reverse"}, {"k": "filter", "p": "even"}], [{"k": "setctx"}]):
+        yield {"op": "chain", "args": args, "flow": FLOW_C, "bufsizes": [1, None]}
+    for rf in PRE_REPS:
+        if rf["k"] == "runif":
+            for v in runif_variants(rf):
+                for acc in (ACCS[0], ACCS[3]):
+                    yield {"op": "chain", "args": [v, acc], "flow": FLOW_A, "bufsizes": bufsizes_for(len(FLOW_A))}
+            yield {"op": "chain", "args": [dict(rf, bad=True), ACCS[0]], "flow": FLOW_A, "bufsizes": [1, None]}
+    for pre in [[]] + [[a] for a in PRE_REPS]:
+        for fl in (FLOW_A, FLOW_B, []):
+            yield {"op": "chain", "args": pre + [{"k": "count", "name": "n"}], "flow": fl, "bufsizes": bufsizes_for(len(fl))}
     # the seeded sibling pattern: a branch that stops early before an ordinary chain, every bufsize
     for sl in ([2], [0], [1, 3]):
         for chain in ([{"k": "call", "f": "inc"}, ACCS[0]], [{"k": "filter", "p": "even"}, ACCS[3]], [ACCS[4]]):
@@ -1250,17 +1526,54 @@ def gen_cases(ctx):
                 if order:
                     bs.reverse()
                 for b in bufsizes_for(len(FLOW_A)):
-                    cases.append({"op": "split", "branches": bs, "bufsize": b, "flow": FLOW_A})
+                    yield {"op": "split", "branches": bs, "bufsize": b, "flow": FLOW_A}
+                for form in ("prebuilt", "bare"):
+                    yield {"op": "split", "branches": bs, "bufsize": 2, "flow": FLOW_A, "form": form}
+                yield {"op": "splitfc", "branches": bs, "flow": FLOW_A}
+            yield {"op": "splitfc", "branches": [chain, [{"k": "filter", "p": "lt5"}, ACCS[2]]], "flow": FLOW_A}
+    # Split.__init__: seqs must be a list, bufsize a natural number or None
+    one = [[{"k": "call", "f": "inc"}, ACCS[0]]]
+    for b in (0, -1, -5):
+        yield {"op": "split", "branches": one, "bufsize": b, "flow": FLOW_C}
+    yield {"op": "split", "branches": one, "bufsize": 2, "flow": FLOW_C, "islist": False}
+    yield {"op": "split", "branches": [[{"k": "junk"}, ACCS[0]]], "bufsize": 0, "flow": FLOW_C}
+    # one element, its two faces (the driver-consistency lemmas), also for input flows that end in an exception
+    stage_els = []
+    for e in PRE_REPS + [{"k": "call", "f": f} for f in ("neg", "mod3", "ident")] + \
+            [{"k": "slice", "args": a} for a in NONNEG_SLICES]:
+        stage_els.extend(runif_variants(e) if e["k"] == "runif" else [e])
+    for e in stage_els:
+        for fl in STAGE_FLOWS:
+            for term in (None, "Other:ValueError"):
+                yield {"op": "stage", "el": e, "flow": fl, "term": term}
+    # FillSeq.__init__
+    yield {"op": "fillseq_init", "args": []}
+    for a in FILLSEQ_ELS:
+        yield {"op": "fillseq_init", "args": [a]}
+        yield {"op": "fillseq_init", "args": [{"k": "setctx"}, a]}
+        for b in FILLSEQ_ELS:
+            yield {"op": "fillseq_init", "args": [a, b]}
     # ---- sampled ------------------------------------------------------------------------------------
     n_rand = 2500 if not thorough else 150000
     for _ in range(n_rand):
         in_scope = rng.random() < 0.8
         fl = gen_flow(rng)
-        cases.append({"op": "chain", "args": gen_chain(rng, in_scope), "flow": fl, "bufsizes": bufsizes_for(len(fl))})
+        yield {"op": "chain", "args": gen_chain(rng, in_scope), "flow": fl, "bufsizes": bufsizes_for(len(fl))}
     n_split = 800 if not thorough else 60000
     for _ in range(n_split):
-        cases.append(gen_split_case(rng, rng.random() < 0.9))
-    return cases
+        c = gen_split_case(rng, rng.random() < 0.9)
+        r = rng.random()
+        if r < 0.15:
+            c["form"] = "prebuilt"
+        elif r < 0.3:
+            c["form"] = "bare"
+        yield c
+        if rng.random() < 0.3:
+            yield {"op": "splitfc", "branches": c["branches"], "flow": c["flow"]}
+    n_stage = 500 if not thorough else 30000
+    for _ in range(n_stage):
+        yield {"op": "stage", "el": gen_pre_el(rng, rng.random() < 0.9), "flow": gen_flow(rng),
+               "term": rng.choice([None, None, "Other:ValueError", "Other:TypeError"])}
 
 
 def search_cases(ctx):
@@ -1290,6 +1603,10 @@ def nontrivial(case, res):
         return len(case["args"]) >= 2 and "r" in res["seq"] and bool(res["seq"]["r"])
     if op == "split":
         return "r" in res["split"] and bool(res["split"]["r"])
+    if op == "stage":
+        return "fill" in res and bool(res["fill"]["got"])
+    if op == "splitfc":
+        return "r" in res["fc"] and bool(res["fc"]["r"])
     return False
 
 
@@ -1299,6 +1616,18 @@ def classify(case, res):
     if op == "adapter":
         labels.append("adapter:" + case["adapter"] + ":" + ("rejected" if res.get("e") else "accepted"))
         labels.append("adapter-el:" + case["el"]["k"])
+        return labels
+    if op == "stage":
+        labels.append("stage:" + case["el"]["k"] + (":term" if case.get("term") else ""))
+        if "fill" in res:
+            labels.append("stage-end:" + res["fill"]["end"])
+        return labels
+    if op == "fillseq_init":
+        labels.append("fillseq_init:" + ("ok" if res["res"].get("ok") else res["res"].get("e", "?")))
+        return labels
+    if op == "splitfc":
+        labels.append("splitfc:" + ("skip" if "skip" in res["fc"] else "init" if "e" in res["fc"] else
+                                    "all-normal" if all(n is True for n in res["normal"]) else "a-branch-stops"))
         return labels
     ks = []
     for s in (case["args"] if op == "chain" else [s for b in case["branches"] for s in b]):
@@ -1330,9 +1659,11 @@ def signature(case, failure):
     if op == "adapter":
         return f"adapter:{case['adapter']}:{case['el']['k']}:{case.get('name')}:{case.get('name2')}"
     ks = []
-    for s in (case["args"] if op == "chain" else [s for b in case["branches"] for s in b]):
+    els = (case["args"] if op in ("chain", "fillseq_init") else [case["el"]] if op == "stage"
+           else [s for b in case["branches"] for s in b])
+    for s in els:
         _kinds(s, ks)
-    return op + ":" + ",".join(ks) + ":" + str(len(case["flow"]))
+    return op + ":" + ",".join(ks) + ":" + str(len(case.get("flow", [])))
 
 
 def shrink(case):
@@ -1352,7 +1683,15 @@ def shrink(case):
         if len(case["bufsizes"]) > 1:
             for b in case["bufsizes"]:
                 yield dict(case, bufsizes=[b])
-    elif op == "split":
+    elif op == "stage":
+        for i in range(len(case["flow"])):
+            yield dict(case, flow=case["flow"][:i] + case["flow"][i + 1:])
+        if case.get("term"):
+            yield dict(case, term=None)
+    elif op == "fillseq_init":
+        for i in range(len(case["args"])):
+            yield dict(case, args=case["args"][:i] + case["args"][i + 1:])
+    elif op in ("split", "splitfc"):
         bs = case["branches"]
         for i in range(len(bs)):
             if len(bs) > 1:
